@@ -136,6 +136,8 @@ func newOpRig() (*opRig, error) {
 		for n := 1; n < len(queueNames); n++ {
 			// 30 February: the crontab never fires by itself
 			sched = append(sched, map[string]any{"name": "s-" + queueNames[n], "crontab": "0 0 30 2 *", "queue": queueNames[n]})
+			// the same with the other failure policy
+			sched = append(sched, map[string]any{"name": "l-" + queueNames[n], "crontab": "0 0 30 2 *", "queue": queueNames[n], "allowFailure": true})
 		}
 		cfg := map[string]any{
 			"configVersion":        "v1",
@@ -259,6 +261,7 @@ func (rg *opRig) state0(in Input) [][]Task {
 					}
 				}
 				o.Kube = hm.BindingType == htypes.OnKubernetesEvent
+				o.AF = hm.AllowFailure
 				o.Exec = hm.ExecuteOnSynchronization
 				o.Group = 99
 				for i, g := range groups {
@@ -451,13 +454,49 @@ func runOp(in Input) (obs Observation) {
 	}()
 	for _, t := range in.Q {
 		if q := op.TaskQueues.GetByName(qname(t.Qn)); q != nil {
-			q.AddLast(mkOpTask(t))
+			bt := mkOpTask(t)
+			if t.Ty == 0 {
+				if note := rg.declaredPolicy(bt, t); note != "" {
+					obs.Note = note
+					return
+				}
+			}
+			q.AddLast(bt)
 		}
 	}
 	for _, st := range in.Steps {
 		obs.Steps = append(obs.Steps, rg.step(in, st))
 	}
 	return obs
+}
+
+// declaredPolicy: the task's AllowFailure is what the REAL binding of its hook declares - as the schedule
+// handler does it (operator.go:163-191: AllowFailure: info.AllowFailure, from the loaded config of the
+// binding).  A lenient task is a tick of the hook's schedule binding "l-<queue>" (allowFailure: true), a
+// strict one of "s-<queue>" (the default); tasks carrying a name no queue has are ticks of the bindings
+// of "main".
+func (rg *opRig) declaredPolicy(bt task.Task, t Task) string {
+	hk := rg.op.HookManager.GetHook(hookName(t.Hook))
+	if hk == nil {
+		return "no such hook"
+	}
+	qn := qname(t.Name)
+	if t.Name < 1 || t.Name >= len(queueNames) {
+		qn = queueNames[1]
+	}
+	name := "s-" + qn
+	if t.AF {
+		name = "l-" + qn
+	}
+	for _, sc := range hk.GetConfig().Schedules {
+		if sc.BindingName == name {
+			hm := task_metadata.HookMetadataAccessor(bt)
+			hm.AllowFailure = sc.AllowFailure
+			bt.UpdateMetadata(hm)
+			return ""
+		}
+	}
+	return "the loaded config of " + hookName(t.Hook) + " has no schedule binding " + name
 }
 
 // ---- rendering ----
@@ -544,6 +583,12 @@ func renderOp(in Input, obs *Observation, crash string) core.Case {
 				if len(h.Ctxs) > 0 && h.Ctxs[0].Sync && !h.Exec {
 					kind += "-no-exec"
 				}
+				if len(o.Steps[i].Runs) > 0 {
+					c.Tags = append(c.Tags, policyTags(prev[k])...)
+					if st.Fail && o.Steps[i].Success {
+						c.Tags = append(c.Tags, "failed-run-forgiven")
+					}
+				}
 				if h.Hook >= 1 && h.Hook <= len(in.Hooks) && in.Hooks[h.Hook-1].V0 {
 					kind += "-v0"
 				}
@@ -629,6 +674,12 @@ func (g *gen) opSession() Input {
 		}
 		in.Q = append(in.Q, t)
 	}
+	g.policies(in.Q, nil)
+	for i := range in.Q {
+		if in.Q[i].Ty == 1 { // EnableScheduleBindings: no binding, no policy
+			in.Q[i].AF = false
+		}
+	}
 	headHook := func(qn int) int {
 		for _, t := range in.Q {
 			if t.Qn == qn {
@@ -706,5 +757,18 @@ func OpCorpus() []Input {
 	// a task of another type at the head; an empty / missing queue
 	add([]int{1, 2}, []Step{{Kind: "head", Qn: 1}, {Kind: "head", Qn: 1}, {Kind: "head", Qn: 3}, {Kind: "head", Qn: 2}},
 		Task{Id: 1, Hook: 1, Ty: 1, Ctxs: []Ctx{}, Mids: []int{}, Qn: 1, Name: 1}, nt(2, 1, 1, 1, ctxs(20, 2)), nt(3, 1, 1, 1, ctxs(30, 2)))
+	// failure policies (the demonstration of seeded change C07-7): ticks of the bindings strict, lenient, strict
+	// of one hook pile up in "main": ONE run with the three contexts; it fails (one merged task is strict: Fail,
+	// the head stays with everything), the retry succeeds
+	lt := func(t Task) Task { t.AF = true; return t }
+	add([]int{1}, []Step{{Kind: "head", Qn: 1, Fail: true}, {Kind: "head", Qn: 1}, {Kind: "head", Qn: 1}},
+		nt(1, 1, 1, 1, ctxs(10, 0)), lt(nt(2, 1, 1, 1, ctxs(20, 0))), nt(3, 1, 1, 1, ctxs(30, 0)), nt(4, 2, 1, 1, ctxs(40, 0)))
+	// a lenient head, strict and lenient followers with one group: compacted over the policy boundaries
+	add([]int{1, 2}, []Step{{Kind: "head", Qn: 1}, {Kind: "head", Qn: 2, Fail: true}, {Kind: "head", Qn: 2}},
+		lt(nt(1, 1, 1, 1, ctxs(10, 1))), nt(2, 1, 1, 1, ctxs(20, 1)), lt(nt(3, 1, 1, 1, ctxs(30, 1))),
+		lt(nt(4, 1, 2, 2, ctxs(40, 0))), lt(nt(5, 1, 2, 2, ctxs(50, 0))), nt(6, 1, 2, 2, ctxs(60, 0)))
+	// every merged task lenient: the failed run is forgiven, the head leaves
+	add([]int{1}, []Step{{Kind: "head", Qn: 1, Fail: true}, {Kind: "head", Qn: 1}},
+		lt(nt(1, 1, 1, 1, ctxs(10, 0))), lt(nt(2, 1, 1, 1, ctxs(20, 0))), nt(3, 2, 1, 1, ctxs(30, 0)))
 	return ins
 }
